@@ -21,4 +21,5 @@ func setupNetip(e *sym.Engine, st *sym.State, l *sym.Loaded) {
 	e.NativeGlob["github.com/miekg/dns.StringToType"] = &dns.StringToType
 	e.NativeGlob["github.com/miekg/dns.StringToRcode"] = &dns.StringToRcode
 	e.NativeGlob["github.com/miekg/dns.TypeToString"] = &dns.TypeToString
+	e.PreloadGlobals(st)
 }
